@@ -15,7 +15,7 @@ def run(ctx):
     ctx.assumptions += [
         "chrono (timestamp rendering, strftime, parse_from_str), serde_json/ryu number formatting, Display for f64, regex and flate2 are trusted; "
         "their outputs enter the model as inputs (timestamp text, float renderings) or as the modelled contract (regex semantics, Unicode Nd table of regex-syntax 0.8.11, proleptic Gregorian calendar)",
-        "file system: names -> record lists with atomic rename/remove/append; I/O errors, partial writes, crashes and concurrent external modification are not modelled",
+        "file system: names -> record lists with atomic rename/remove/append (a record is appended in one piece: tearing is observable only by the Rust monitor, not in the model); I/O errors, partial writes, crashes, concurrent external modification and writes to an unlinked open file are not modelled",
         "time: seconds since the epoch, years 1970..=9999 (chrono prints +10000 for later years and the roller no longer recognises its own files); the injected clock never goes backwards",
         "u32 overflow of the roll sequence number (4 294 967 295 rolls within one period) is not modelled",
         "directory entries that compare equal under Ord for RolledFile (only reachable with foreign files / the F15 shared-prefix situation) are ordered by read_dir; the engine stops comparing listings of such a case after the tie",
@@ -23,7 +23,7 @@ def run(ctx):
     env = {"VERIF_TMP": os.path.join(VERIF, ".build", "tmp")}
     if ctx.replay:
         ctx.tie("replay", [h, "run", ctx.replay], [drv], env=env); return
-    for f in ("C20_F13.case", "C20_F15.case"):
+    for f in ("C20_F13.case", "C20_F15.case", "C20_F17.case"):
         ctx.tie("known-findings:" + f, [h, "run", os.path.join(VERIF, "findings", f)], [drv], env=env)
     corpus = os.path.join(VERIF, "corpus", "log")
     if os.path.isdir(corpus):
